@@ -146,6 +146,8 @@ type c02facts struct {
 	persistSyncOrder  []string
 	ackFieldUsers     []string
 	closeTouchesAcks  bool
+	loadCommitCalls   int
+	loadCommitOnErr   bool
 }
 
 func extractC02(c *Ctx) c02facts {
@@ -420,7 +422,43 @@ func extractC02(c *Ctx) c02facts {
 	} else {
 		c.Refuse("index: (*Writer).close not found")
 	}
+	f.loadCommitCalls, f.loadCommitOnErr = loadSnapshotsCommitFacts(c, idx)
 	return f
+}
+
+// loadSnapshotsCommitFacts: how many deletionPolicy.Commit calls loadSnapshots contains, and whether any of them
+// sits in an error branch (`if err != nil { … }`, or the else of `if err == nil`): only a snapshot that LOADED may be
+// committed to the policy — committing an unloadable (torn newest) epoch makes the last good one deletable.
+func loadSnapshotsCommitFacts(c *Ctx, idx *Pkg) (int, bool) {
+	ls := idx.Func("Writer.loadSnapshots")
+	if ls == nil {
+		c.Refuse("index: loadSnapshots not found")
+	}
+	n, onErr := 0, false
+	var errBranches []ast.Node
+	ast.Inspect(ls.Body, func(m ast.Node) bool {
+		if is, ok := m.(*ast.IfStmt); ok {
+			if be, ok := is.Cond.(*ast.BinaryExpr); ok && strings.HasPrefix(strings.ToLower(selName(be.X)), "err") && selName(be.Y) == "nil" {
+				if be.Op == token.NEQ {
+					errBranches = append(errBranches, is.Body)
+				} else if be.Op == token.EQL && is.Else != nil {
+					errBranches = append(errBranches, is.Else)
+				}
+			}
+		}
+		return true
+	})
+	for _, x := range callsIn(ls.Body) {
+		if strings.HasSuffix(x.name, ".deletionPolicy.Commit") || calledMethod(x.call) == "Commit" {
+			n++
+			for _, b := range errBranches {
+				if b.Pos() <= x.pos && x.pos < b.End() {
+					onErr = true
+				}
+			}
+		}
+	}
+	return n, onErr
 }
 
 // calledMethod is the method name of a call `….Name(…)`, whatever the receiver expression.
@@ -480,6 +518,7 @@ func genC02(c *Ctx) {
 	fmt.Fprintf(&b, "/-- FileSystemDirectory.Persist: calls in source order -/\ndef persistSyncOrder : List String := %s\n", leanStrs(f.persistSyncOrder))
 	fmt.Fprintf(&b, "/-- the functions of package index that mention Writer.rootPersisted / Writer.persistedCallbacks -/\ndef ackFieldUsers : List String := %s\n", leanStrs(f.ackFieldUsers))
 	fmt.Fprintf(&b, "/-- Writer.close closes a channel other than closeCh, or invokes an element of a callback slice -/\ndef closeTouchesAcks : Bool := %s\n", leanBool(f.closeTouchesAcks))
+	fmt.Fprintf(&b, "/-- loadSnapshots: number of deletionPolicy.Commit calls, and whether one of them lies in an error branch -/\ndef loadCommitCalls : Nat := %d\ndef loadCommitOnErr : Bool := %s\n", f.loadCommitCalls, leanBool(f.loadCommitOnErr))
 	b.WriteString("\nend BlugeGen.C02\n")
 	c.WriteLean("C02", b.String())
 	c.Summary["facts"] = 16
